@@ -273,7 +273,6 @@ def check_parsers_do_not_panic(ctx, f):
     modules and the `parse` / `decode` functions)."""
     from props import C04
     from engine.callgraph import CallGraph
-    ctx.rule("R-PANIC", "panic-capable constructs reachable from the CA-protocol XML parsers are discharged or in the reviewed table")
     entries = []
     for n, r in f.fns.items():
         if not r.get("has_body"):
@@ -283,24 +282,4 @@ def check_parsers_do_not_panic(ctx, f):
         ins = " ".join(r["inputs"])
         if "xml::decode::" in ins or r["name"] in ("parse", "decode", "from_str", "try_from", "base64_decode", "ascii_into"):
             entries.append(n)
-    cg = CallGraph(f)
-    reach, _ = C04.callback_closure(f, cg, entries)
-    sites = C04.enumerate_sites(f, reach)
-    table = C04.load_table()
-    cl = C04.classify(f, sites)
-    ctx.floor("R-PANIC", "XML parsing entry points of the CA protocols", len(entries), 40)
-    ctx.floor("R-PANIC", "panic-capable sites reachable from them", len(sites), 40)
-    by_key = {}
-    for s, rule, why_ in cl:
-        key = s.key()
-        if rule is None and key in table:
-            need = table[key].get("guards") or []
-            have = C04.site_guards(f, s) if need else []
-            if all(any(re.search(g, x) for x in have) for g in need):
-                rule, why_ = "P2-table", table[key]["reason"]
-        by_key.setdefault(key, []).append((s, rule, why_))
-    for key, lst in by_key.items():
-        bad = [x for x in lst if x[1] is None]
-        s, rule, why_ = (bad or lst)[0]
-        ctx.ob("R-PANIC", key, not bad, "%s in %s cannot fire [%s]" % (s.kind, short(s.fn), rule or "no rule applies and not in the reviewed table"),
-               where=s.where, detail={"rule": rule, "reason": why_, "operands": s.shape})
+    C04.check_reachable_sites(ctx, f, entries, "the CA-protocol XML parsers", 40, 40)
